@@ -717,12 +717,18 @@ func vhFlattenDiags(ds []diagnostics.EntityDiagnostic) []diagnostics.ResolvedDia
 	return out
 }
 
+var vhFrontLight = false // crash-freedom wrappers fix the layout choices
+
 func vhFrontPerturbation() (vhFrontPerturb, bool) {
+	nIndent, nFree, nLead := 3, 2, 2
+	if vhFrontLight {
+		nIndent, nFree, nLead = 1, 1, 1
+	}
 	p := vhFrontPerturb{
-		indent:      []string{"", "\t", "   "}[symxChoice("indent", 3)],
-		free:        []string{"Op does things", "Déjà vu: 10€ ∀x"}[symxChoice("free", 2)],
+		indent:      []string{"", "\t", "   "}[symxChoice("indent", nIndent)],
+		free:        []string{"Op does things", "Déjà vu: 10€ ∀x"}[symxChoice("free", nFree)],
 		verb:        []string{"POST", "FOO", ""}[symxChoice("verb", 3)],
-		lead:        []string{"", "/* é€ */ "}[symxChoice("lead", 2)], // multibyte characters before the annotation, on its line
+		lead:        []string{"", "/* é€ */ "}[symxChoice("lead", nLead)], // multibyte characters before the annotation, on its line
 		urlName:     []string{"id", "other"}[symxChoice("urlName", 2)],
 		pathRef:     []string{"id", "zz"}[symxChoice("pathRef", 2)],
 		query:       []string{"q", "", "zz"}[symxChoice("query", 3)],
@@ -736,6 +742,10 @@ func vhFrontPerturbation() (vhFrontPerturb, bool) {
 
 func vhC10C18Front(checkDiagnostics bool) {
 	pert, valid := vhFrontPerturbation()
+	vhC10C18FrontWith(pert, valid, checkDiagnostics)
+}
+
+func vhC10C18FrontWith(pert vhFrontPerturb, valid bool, checkDiagnostics bool) {
 	src := vhFrontPerturbSource(pert)
 	fr, err := visitors.VhLoadSource(src, nil)
 	symxAssert(err == nil, "C10.front.fixture-loads")
@@ -829,6 +839,30 @@ func vhDiagLess(a, b diagnostics.ResolvedDiagnostic) bool {
 		return a.Code < b.Code
 	}
 	return a.Message < b.Message
+}
+
+// C14 through the front end: no perturbed project crashes the visitors, the validators, the reduction or the emitters
+func vh_C14_front_perturbed_Q() {
+	symxAssertionsOff()
+	vhFrontLight = true
+	pert, valid := vhFrontPerturbation()
+	vhFrontLight = false
+	vhC10C18FrontWith(pert, valid, true)
+	fr, err := visitors.VhLoadSource(vhFrontPerturbSource(pert), nil)
+	if err != nil {
+		return
+	}
+	meta, err := pipeline.VhNewPipeline(fr, vhFrontConfig()).Run()
+	symxCover("C14.front.analysis-ended")
+	if err != nil {
+		return
+	}
+	doc30, doc31 := vhNewDoc30(), vhNewDoc31()
+	_ = swagen30.GenerateModelsSpec(doc30, &meta.Models)
+	_ = swagen31.GenerateModelsSpec(doc31, &meta.Models)
+	_ = swagen30.GenerateControllersSpec(doc30, &definitions.OpenAPIGeneratorConfig{}, meta.Flat)
+	_ = swagen31.GenerateControllersSpec(doc31, &definitions.OpenAPIGeneratorConfig{}, meta.Flat)
+	symxCover("C14.front.emitters-ended")
 }
 
 func vh_C10_front_accept_Q()      { vhC10C18Front(false) }
